@@ -1,14 +1,924 @@
-// Package c15 is the correspondence area of property C15 (stub: the slice is not built yet).
+// Package c15 is the correspondence area of property C15: description updates are delivered
+// exactly when the target's contract changes (reflection.Resolver).
+//
+// Ops (first field of an input line):
+//
+//	hist os<0|1> rt<ms> C=<contract>;<contract>… <plan> <plan> …
+//	    runs the REAL reflection.Resolver (ResolverBuilder.Build, PollManually) against a scripted
+//	    fake grpcadapter.ClientPool/ClientConn/ClientStream speaking the reflection protocol and
+//	    logs, in one total order, hook arrivals, streams opened, watcher callbacks and Close.
+//	    contract = <valid>/<sig>/<svc>,<svc>…/<file>:<bytes>,…            (hex without the x prefix)
+//	    plan     = <attempt v1>/<attempt v1alpha>/<nA>.<nB>.<nC>.<nD>.<nE>/<close point or ->[/<split>,<split>…]
+//	    split    = h<point>: a ResolveNow call is started on its own goroutine and held at the hook
+//	               resolver.resolveNow.loaded (pointer loaded, once-func not yet called);
+//	               r<point>: every held call is released and runs to completion
+//	    attempt  = <mode><contract id>[@<pos>]   mode S|U|A|I|T|E|O|G, pos o|ls|lr|le|lw|ss<k>|sr<k>|se<k>|fs<k>|fr<k>|fe<k>|fm<k>
+//	    nA..nE   = number of ResolveNow calls made at: A the beforeResolve hook, B inside the poll
+//	               (first pool.Get), C the beforeSelect hook, D once the poller is parked in the
+//	               select, E the woken hook (between wake-up and re-arm). Close is issued (from its
+//	               own goroutine) at the named point after the ResolveNow calls of that point.
+//	    log tokens: R (beforeResolve) a0/a1 (stream opened with v1/v1alpha) g (pool.Get=false)
+//	               u<sig> (UpdateDesc) e<class> (ReportError) S (beforeSelect) K (poller parked in
+//	               select) W (woken) Z (final Close issued by the harness) c (Close returned)
+//	               X (poller goroutine gone) L (still alive) !<why> (harness watchdog).
+//	hsvc <names> <names>     are the real hashServiceNames of the two lists equal?   => eq|ne
+//	hfile <files> <files>    same for hashNamedProtoBundles                          => eq|ne
 package c15
 
 import (
+	"context"
+	"crypto/sha256"
+	"encoding/hex"
+	"errors"
+	"fmt"
+	"io"
 	"math/rand"
+	"os"
+	"regexp"
+	"runtime"
+	"sort"
+	"strconv"
+	"strings"
+	"sync"
+	"sync/atomic"
+	"time"
+
+	"github.com/renbou/grpcbridge/bridgedesc"
+	"github.com/renbou/grpcbridge/grpcadapter"
+	"github.com/renbou/grpcbridge/reflection"
+	"github.com/renbou/grpcbridge/verifx"
+	"google.golang.org/grpc/codes"
+	"google.golang.org/grpc/metadata"
+	reflectionpb "google.golang.org/grpc/reflection/grpc_reflection_v1"
+	"google.golang.org/grpc/status"
+	"google.golang.org/protobuf/proto"
+	"google.golang.org/protobuf/types/descriptorpb"
 )
 
 type Area struct{}
 
 func (Area) Name() string { return "c15" }
 
-func (Area) Exec(input string) string { return "UNIMPLEMENTED" }
+var methodNames = []string{
+	"/grpc.reflection.v1.ServerReflection/ServerReflectionInfo",
+	"/grpc.reflection.v1alpha.ServerReflection/ServerReflectionInfo",
+}
 
-func (Area) Gen(r *rand.Rand, tier string, emit func(string)) {}
+// ---------------------------------------------------------------------------------------------
+// line parsing
+
+type file struct {
+	name  string
+	bytes []byte
+	fd    *descriptorpb.FileDescriptorProto // nil if the bytes do not unmarshal
+}
+
+type contract struct {
+	valid  bool
+	sig    string
+	listed []string
+	files  []file
+}
+
+type attempt struct {
+	mode byte
+	cid  int
+	pos  string
+	k    int
+}
+
+type plan struct {
+	att     [2]attempt
+	n       [5]int
+	closeAt byte   // 'A'..'E' or '-'
+	holdAt  []byte // points at which one ResolveNow is started and held after its pointer load
+	relAt   []byte // points at which all held calls are released
+}
+
+func unhexPlain(s string) []byte {
+	b, err := hex.DecodeString(s)
+	if err != nil {
+		panic("bad hex in line: " + err.Error())
+	}
+	return b
+}
+
+func parseContract(s string) contract {
+	p := strings.Split(s, "/")
+	if len(p) != 4 {
+		panic("contract needs 4 parts: " + s)
+	}
+	c := contract{valid: p[0] == "1", sig: p[1]}
+	if p[2] != "" {
+		for _, h := range strings.Split(p[2], ",") {
+			c.listed = append(c.listed, string(unhexPlain(h)))
+		}
+	}
+	if p[3] != "" {
+		for _, f := range strings.Split(p[3], ",") {
+			nb := strings.SplitN(f, ":", 2)
+			if len(nb) != 2 {
+				panic("file needs name:bytes")
+			}
+			fl := file{name: string(unhexPlain(nb[0])), bytes: unhexPlain(nb[1])}
+			fd := new(descriptorpb.FileDescriptorProto)
+			if err := proto.Unmarshal(fl.bytes, fd); err == nil {
+				fl.fd = fd
+			}
+			c.files = append(c.files, fl)
+		}
+	}
+	return c
+}
+
+var attRe = regexp.MustCompile(`^([SUAITEOG])(\d+)(?:@([a-z]+)(\d*))?$`)
+
+func parseAttempt(s string) attempt {
+	m := attRe.FindStringSubmatch(s)
+	if m == nil {
+		panic("bad attempt " + s)
+	}
+	a := attempt{mode: m[1][0], pos: m[3]}
+	a.cid, _ = strconv.Atoi(m[2])
+	if m[4] != "" {
+		a.k, _ = strconv.Atoi(m[4])
+	}
+	return a
+}
+
+func parsePlan(s string) plan {
+	p := strings.Split(s, "/")
+	if len(p) != 4 && len(p) != 5 {
+		panic("plan needs 4 or 5 parts: " + s)
+	}
+	pl := plan{closeAt: p[3][0]}
+	if len(p) == 5 {
+		for _, h := range strings.Split(p[4], ",") {
+			if len(h) != 2 {
+				panic("bad split action " + h)
+			}
+			if h[0] == 'h' {
+				pl.holdAt = append(pl.holdAt, h[1])
+			} else {
+				pl.relAt = append(pl.relAt, h[1])
+			}
+		}
+	}
+	pl.att[0] = parseAttempt(p[0])
+	pl.att[1] = parseAttempt(p[1])
+	ns := strings.Split(p[2], ".")
+	if len(ns) != 5 {
+		panic("plan needs 5 counts")
+	}
+	for i := range ns {
+		pl.n[i], _ = strconv.Atoi(ns[i])
+	}
+	return pl
+}
+
+// ---------------------------------------------------------------------------------------------
+// Exec
+
+func (Area) Exec(input string) string {
+	f := strings.Fields(input)
+	switch f[0] {
+	case "hist":
+		return execHist(f)
+	case "hsvc":
+		a, b := parseNameList(f[1]), parseNameList(f[2])
+		if reflection.VerifHashServiceNames(a) == reflection.VerifHashServiceNames(b) {
+			return "eq"
+		}
+		return "ne"
+	case "hfile":
+		an, ab := parseFileList(f[1])
+		bn, bb := parseFileList(f[2])
+		if reflection.VerifHashNamedProtoBundles(an, ab) == reflection.VerifHashNamedProtoBundles(bn, bb) {
+			return "eq"
+		}
+		return "ne"
+	}
+	return "BADOP"
+}
+
+func parseNameList(s string) []string {
+	if s == "-" {
+		return nil
+	}
+	var out []string
+	for _, h := range strings.Split(s, ",") {
+		out = append(out, string(unhexPlain(h)))
+	}
+	return out
+}
+
+func parseFileList(s string) ([]string, [][]byte) {
+	if s == "-" {
+		return nil, nil
+	}
+	var names []string
+	var bs [][]byte
+	for _, f := range strings.Split(s, ",") {
+		nb := strings.SplitN(f, ":", 2)
+		names = append(names, string(unhexPlain(nb[0])))
+		bs = append(bs, unhexPlain(nb[1]))
+	}
+	return names, bs
+}
+
+type exec struct {
+	target    string
+	os        bool
+	contracts []contract
+	plans     []plan
+
+	mu  sync.Mutex
+	log []string
+
+	res   *reflection.Resolver
+	built chan struct{}
+
+	kick chan struct{} // wakes the main goroutine (buffered, non-blocking sends)
+
+	selectSeq atomic.Int64 // number of beforeSelect hooks released
+	wokenSeq  atomic.Int64 // number of woken hooks reached
+
+	// poller-goroutine-owned (hooks and fakes run on it); read by main only while the poller is parked
+	pollIdx       int // index of the current poll (-1 before the first)
+	attemptInPoll int
+	pollerGID     atomic.Int64
+
+	closeSpawned atomic.Bool
+	closed       atomic.Bool // Close has returned
+
+	holdNext atomic.Bool     // the next arrival at resolver.resolveNow.loaded is to be held
+	loaded   chan struct{}   // the held call has loaded the pointer
+	release  []chan struct{} // one per held call
+	finished []chan struct{} // closed when the held call has returned
+}
+
+var targetCounter atomic.Int64
+
+func (x *exec) logf(format string, args ...any) {
+	x.mu.Lock()
+	x.log = append(x.log, fmt.Sprintf(format, args...))
+	x.mu.Unlock()
+}
+
+func (x *exec) curPlan() plan {
+	if x.pollIdx >= 0 && x.pollIdx < len(x.plans) {
+		return x.plans[x.pollIdx]
+	}
+	// past the script: serve the last contract successfully, no actions (a poll here is unexpected)
+	last := x.plans[len(x.plans)-1]
+	cid := last.att[0].cid
+	return plan{att: [2]attempt{{mode: 'S', cid: cid}, {mode: 'S', cid: cid}}, closeAt: '-'}
+}
+
+// doActions performs the scripted actions of one point, in this order: held calls are started (pointer
+// load only), whole ResolveNow calls are made, held calls are released, Close is issued.
+func (x *exec) doActions(point byte) {
+	if x.closed.Load() {
+		return
+	}
+	pl := x.curPlan()
+	for _, h := range pl.holdAt {
+		if h != point {
+			continue
+		}
+		rel, fin := make(chan struct{}), make(chan struct{})
+		x.release = append(x.release, rel)
+		x.finished = append(x.finished, fin)
+		x.holdNext.Store(true)
+		go func() {
+			defer close(fin)
+			defer x.recoverTo("resolveNow")
+			x.res.ResolveNow() // blocks in the hook until released
+		}()
+		<-x.loaded
+	}
+	for i := 0; i < pl.n[point-'A']; i++ {
+		x.safeResolveNow()
+	}
+	for _, h := range pl.relAt {
+		if h != point {
+			continue
+		}
+		for i := range x.release {
+			close(x.release[i])
+			<-x.finished[i]
+		}
+		x.release, x.finished = nil, nil
+	}
+	if pl.closeAt == point {
+		x.spawnClose()
+	}
+}
+
+func (x *exec) spawnClose() {
+	if !x.closeSpawned.CompareAndSwap(false, true) {
+		return
+	}
+	go func() {
+		defer x.recoverTo("close")
+		x.res.Close()
+		x.mu.Lock()
+		x.closed.Store(true)
+		x.log = append(x.log, "c")
+		x.mu.Unlock()
+		x.poke()
+	}()
+}
+
+// recoverTo turns a panic of a helper goroutine (the code under test panicking inside ResolveNow/Close)
+// into a log token instead of killing the harness process.
+func (x *exec) recoverTo(what string) {
+	if r := recover(); r != nil {
+		x.logf("!panic-in-%s", what)
+		x.poke()
+	}
+}
+
+func (x *exec) safeResolveNow() {
+	defer x.recoverTo("resolveNow")
+	x.res.ResolveNow()
+}
+
+func (x *exec) poke() {
+	select {
+	case x.kick <- struct{}{}:
+	default:
+	}
+}
+
+func curGID() int64 {
+	var buf [64]byte
+	n := runtime.Stack(buf[:], false)
+	// "goroutine 123 [running]:"
+	s := strings.TrimPrefix(string(buf[:n]), "goroutine ")
+	if i := strings.IndexByte(s, ' '); i > 0 {
+		id, _ := strconv.ParseInt(s[:i], 10, 64)
+		return id
+	}
+	return -1
+}
+
+// pollerStatus inspects the goroutine dump: "gone", "parked" (blocked in the select of watch) or "busy".
+func (x *exec) pollerStatus() string {
+	gid := x.pollerGID.Load()
+	buf := make([]byte, 1<<16)
+	for {
+		n := runtime.Stack(buf, true)
+		if n < len(buf) {
+			buf = buf[:n]
+			break
+		}
+		buf = make([]byte, 2*len(buf))
+	}
+	hdr := fmt.Sprintf("goroutine %d [", gid)
+	for _, blk := range strings.Split(string(buf), "\n\n") {
+		if !strings.HasPrefix(blk, hdr) {
+			continue
+		}
+		lines := strings.Split(blk, "\n")
+		state := strings.TrimPrefix(lines[0], hdr)
+		if strings.HasPrefix(state, "select") && len(lines) > 1 && strings.Contains(lines[1], "reflection.(*Resolver).watch") {
+			return "parked"
+		}
+		return "busy"
+	}
+	return "gone"
+}
+
+func (x *exec) hook(name string, args ...string) {
+	if len(args) == 0 || args[0] != x.target {
+		return
+	}
+	if name == "resolver.resolveNow.loaded" {
+		if x.holdNext.CompareAndSwap(true, false) {
+			rel := x.release[len(x.release)-1]
+			x.loaded <- struct{}{}
+			<-rel
+		}
+		return
+	}
+	<-x.built
+	switch name {
+	case "resolver.beforeResolve":
+		x.pollerGID.CompareAndSwap(0, curGID())
+		x.pollIdx++
+		x.attemptInPoll = 0
+		x.logf("R")
+		x.doActions('A')
+	case "resolver.beforeSelect":
+		x.logf("S")
+		x.doActions('C')
+		x.selectSeq.Add(1)
+		x.poke()
+	case "resolver.woken":
+		x.logf("W")
+		x.doActions('E')
+		x.wokenSeq.Add(1)
+		x.poke()
+	}
+}
+
+type watcher struct{ x *exec }
+
+func (w watcher) UpdateDesc(t *bridgedesc.Target) { w.x.logf("u%s", targetSig(t)) }
+func (w watcher) ReportError(err error)           { w.x.logf("e%s", classify(err)) }
+
+func classify(err error) string {
+	switch {
+	case status.Code(err) == codes.Unimplemented:
+		return "U"
+	case errors.Is(err, context.DeadlineExceeded):
+		return "T"
+	case errors.Is(err, io.EOF):
+		return "E"
+	case status.Code(err) == codes.Unavailable:
+		return "A"
+	case status.Code(err) == codes.Internal:
+		return "I"
+	}
+	if os.Getenv("C15_DEBUG") != "" {
+		fmt.Fprintln(os.Stderr, "C15_DEBUG other error:", err)
+	}
+	return "O"
+}
+
+func execHist(f []string) string {
+	if len(f) < 5 || !strings.HasPrefix(f[3], "C=") {
+		return "BADLINE"
+	}
+	x := &exec{
+		target:  fmt.Sprintf("c15-%d", targetCounter.Add(1)),
+		os:      f[1] == "os1",
+		built:   make(chan struct{}),
+		kick:    make(chan struct{}, 1),
+		loaded:  make(chan struct{}),
+		pollIdx: -1,
+	}
+	rt, _ := strconv.Atoi(strings.TrimPrefix(f[2], "rt"))
+	for _, cs := range strings.Split(strings.TrimPrefix(f[3], "C="), ";") {
+		x.contracts = append(x.contracts, parseContract(cs))
+	}
+	for _, ps := range f[4:] {
+		x.plans = append(x.plans, parsePlan(ps))
+	}
+	for _, pl := range x.plans {
+		for _, a := range pl.att {
+			if a.cid >= len(x.contracts) {
+				return "BADLINE"
+			}
+		}
+	}
+
+	verifx.SetHook(x.hook)
+	defer verifx.SetHook(nil)
+
+	builder := reflection.NewResolverBuilder(fakePool{x}, reflection.ResolverOpts{
+		PollManually: true,
+		ReqTimeout:   time.Duration(rt) * time.Millisecond,
+		OnlyServices: x.os,
+	})
+	x.res = builder.Build(x.target, watcher{x})
+	close(x.built)
+
+	x.drive()
+	for i := range x.release {
+		close(x.release[i])
+		<-x.finished[i]
+	}
+
+	x.mu.Lock()
+	defer x.mu.Unlock()
+	return strings.Join(x.log, " ")
+}
+
+const watchdog = 3 * time.Second
+
+// drive is the main-goroutine side of the schedule: it watches the poller around its select,
+// performs the D actions once the poller is parked and ends the run when nothing can wake it.
+func (x *exec) drive() {
+	finish := func() {
+		deadline := time.Now().Add(2 * time.Second)
+		for {
+			if x.pollerStatus() == "gone" {
+				x.logf("X")
+				return
+			}
+			if time.Now().After(deadline) {
+				x.logf("L")
+				return
+			}
+			time.Sleep(50 * time.Microsecond)
+		}
+	}
+	wait := func(d time.Duration) {
+		t := time.NewTimer(d)
+		select {
+		case <-x.kick:
+		case <-t.C:
+		}
+		t.Stop()
+	}
+	var handledPark, lastS, lastW int64
+	var nowakeAt time.Time
+	lastProgress := time.Now()
+	for {
+		if x.closed.Load() {
+			finish()
+			return
+		}
+		s, w := x.selectSeq.Load(), x.wokenSeq.Load()
+		if s != lastS || w != lastW {
+			lastS, lastW, lastProgress = s, w, time.Now()
+		}
+		if time.Since(lastProgress) > watchdog {
+			x.logf("!stuck")
+			return
+		}
+		if s == w { // the poller is not at a select
+			wait(time.Millisecond)
+			continue
+		}
+		if s == handledPark { // K handled for this select: a wake-up or the Close must arrive
+			if !nowakeAt.IsZero() && time.Now().After(nowakeAt) {
+				nowakeAt = time.Time{}
+				x.logf("!nowake")
+				if !x.closeSpawned.Load() {
+					x.logf("Z")
+					x.spawnClose()
+				}
+			}
+			wait(200 * time.Microsecond)
+			continue
+		}
+		x.mu.Lock()
+		st := x.pollerStatus()
+		s2, w2 := x.selectSeq.Load(), x.wokenSeq.Load()
+		isK := st == "parked" && s2 > w2 && s2 > handledPark && !x.closed.Load()
+		if isK {
+			x.log = append(x.log, "K")
+		}
+		x.mu.Unlock()
+		switch {
+		case isK:
+			handledPark = s2
+			lastProgress = time.Now()
+			x.doActions('D')
+			nowakeAt = time.Time{}
+			// close() readies a parked receiver synchronously, so a poller that is still parked after
+			// the D actions (all of them have returned) will not be woken by them
+			if !x.closeSpawned.Load() && x.pollerStatus() == "parked" && x.wokenSeq.Load() == w2 {
+				// quiescent: nothing will wake the poller; end of the run
+				x.logf("Z")
+				x.spawnClose()
+			} else if !x.closeSpawned.Load() {
+				nowakeAt = time.Now().Add(2 * time.Second)
+			}
+		case st == "gone" && !x.closeSpawned.Load():
+			x.logf("!poller-gone")
+			return
+		default:
+			runtime.Gosched()
+		}
+	}
+}
+
+// ---------------------------------------------------------------------------------------------
+// scripted reflection target
+
+type fakePool struct{ x *exec }
+
+func (p fakePool) Get(target string) (grpcadapter.ClientConn, bool) {
+	x := p.x
+	first := x.attemptInPoll == 0
+	x.attemptInPoll++
+	if first {
+		x.doActions('B')
+	}
+	pl := x.curPlan()
+	if pl.att[0].mode == 'G' || pl.att[1].mode == 'G' {
+		x.logf("g")
+		return nil, false
+	}
+	return &fakeConn{x: x, pl: pl}, true
+}
+
+type fakeConn struct {
+	x  *exec
+	pl plan
+}
+
+func (c *fakeConn) Close() {}
+
+func (c *fakeConn) Stream(ctx context.Context, method string) (grpcadapter.ClientStream, error) {
+	v := -1
+	for i, m := range methodNames {
+		if m == method {
+			v = i
+		}
+	}
+	if v < 0 {
+		c.x.logf("!method")
+		return nil, status.Error(codes.Unimplemented, "unknown method")
+	}
+	c.x.logf("a%d", v)
+	att := c.pl.att[v]
+	if att.mode != 'S' && att.pos == "o" {
+		return nil, att.err(ctx)
+	}
+	return &fakeStream{x: c.x, att: att, c: &c.x.contracts[att.cid], notify: make(chan struct{}, 1)}, nil
+}
+
+// err produces the scripted error; timeouts wait for the caller's deadline.
+func (a attempt) err(ctx context.Context) error {
+	switch a.mode {
+	case 'U':
+		return status.Error(codes.Unimplemented, "scripted unimplemented")
+	case 'A':
+		return status.Error(codes.Unavailable, "scripted unavailable")
+	case 'I':
+		return status.Error(codes.Internal, "scripted internal")
+	case 'E':
+		return io.EOF
+	case 'T':
+		<-ctx.Done()
+		return ctx.Err()
+	}
+	return errors.New("scripted failure")
+}
+
+func (a attempt) code() int32 {
+	switch a.mode {
+	case 'U':
+		return int32(codes.Unimplemented)
+	case 'A':
+		return int32(codes.Unavailable)
+	case 'I':
+		return int32(codes.Internal)
+	}
+	return int32(codes.Unknown)
+}
+
+type item struct {
+	msg  *reflectionpb.ServerReflectionResponse
+	fail bool
+}
+
+type fakeStream struct {
+	x   *exec
+	att attempt
+	c   *contract
+
+	mu         sync.Mutex
+	queue      []item
+	sendClosed bool
+	closed     bool
+	notify     chan struct{}
+	symSent    int
+	fileSent   int
+}
+
+func (s *fakeStream) Header() metadata.MD  { return nil }
+func (s *fakeStream) Trailer() metadata.MD { return nil }
+func (s *fakeStream) CloseSend() {
+	s.mu.Lock()
+	s.sendClosed = true
+	s.mu.Unlock()
+	s.wake()
+}
+
+func (s *fakeStream) Close() {
+	s.mu.Lock()
+	s.closed = true
+	s.mu.Unlock()
+	s.wake()
+}
+
+func (s *fakeStream) wake() {
+	select {
+	case s.notify <- struct{}{}:
+	default:
+	}
+}
+
+func (s *fakeStream) failing(pos string, k int) bool {
+	return s.att.mode != 'S' && s.att.pos == pos && s.att.k == k
+}
+
+func errorResponse(code int32, msg string) *reflectionpb.ServerReflectionResponse {
+	return &reflectionpb.ServerReflectionResponse{MessageResponse: &reflectionpb.ServerReflectionResponse_ErrorResponse{
+		ErrorResponse: &reflectionpb.ErrorResponse{ErrorCode: code, ErrorMessage: msg},
+	}}
+}
+
+func fileResponse(bs ...[]byte) *reflectionpb.ServerReflectionResponse {
+	return &reflectionpb.ServerReflectionResponse{MessageResponse: &reflectionpb.ServerReflectionResponse_FileDescriptorResponse{
+		FileDescriptorResponse: &reflectionpb.FileDescriptorResponse{FileDescriptorProto: bs},
+	}}
+}
+
+func (s *fakeStream) Send(ctx context.Context, m proto.Message) error {
+	req, ok := m.(*reflectionpb.ServerReflectionRequest)
+	if !ok {
+		return errors.New("fake stream: unexpected request type")
+	}
+	s.mu.Lock()
+	var it item
+	var sendErr bool
+	switch r := req.MessageRequest.(type) {
+	case *reflectionpb.ServerReflectionRequest_ListServices:
+		switch {
+		case s.failing("ls", 0):
+			sendErr = true
+		case s.failing("lr", 0):
+			it = item{fail: true}
+		case s.failing("le", 0):
+			it = item{msg: errorResponse(s.att.code(), "scripted")}
+		case s.failing("lw", 0):
+			it = item{msg: fileResponse()}
+		default:
+			resp := &reflectionpb.ListServiceResponse{}
+			for _, n := range s.c.listed {
+				resp.Service = append(resp.Service, &reflectionpb.ServiceResponse{Name: n})
+			}
+			it = item{msg: &reflectionpb.ServerReflectionResponse{MessageResponse: &reflectionpb.ServerReflectionResponse_ListServicesResponse{ListServicesResponse: resp}}}
+		}
+	case *reflectionpb.ServerReflectionRequest_FileContainingSymbol:
+		k := s.symSent
+		s.symSent++
+		switch {
+		case s.failing("ss", k):
+			sendErr = true
+		case s.failing("sr", k):
+			it = item{fail: true}
+		case s.failing("se", k):
+			it = item{msg: errorResponse(s.att.code(), "scripted")}
+		default:
+			if fl := s.c.fileOfService(r.FileContainingSymbol); fl != nil {
+				it = item{msg: fileResponse(fl.bytes)}
+			} else {
+				it = item{msg: errorResponse(int32(codes.NotFound), "symbol not found")}
+			}
+		}
+	case *reflectionpb.ServerReflectionRequest_FileByFilename:
+		k := s.fileSent
+		s.fileSent++
+		switch {
+		case s.failing("fs", k):
+			sendErr = true
+		case s.failing("fr", k):
+			it = item{fail: true}
+		case s.failing("fe", k):
+			it = item{msg: errorResponse(s.att.code(), "scripted")}
+		case s.failing("fm", k):
+			it = item{msg: fileResponse()}
+		default:
+			if fl := s.c.fileByName(r.FileByFilename); fl != nil {
+				it = item{msg: fileResponse(fl.bytes)}
+			} else {
+				it = item{msg: errorResponse(int32(codes.NotFound), "file not found")}
+			}
+		}
+	default:
+		it = item{msg: errorResponse(int32(codes.Unimplemented), "fake: unsupported request")}
+	}
+	if !sendErr {
+		s.queue = append(s.queue, it)
+	}
+	s.mu.Unlock()
+	if sendErr {
+		return s.att.err(ctx)
+	}
+	s.wake()
+	return nil
+}
+
+func (s *fakeStream) Recv(ctx context.Context, m proto.Message) error {
+	for {
+		s.mu.Lock()
+		if len(s.queue) > 0 {
+			it := s.queue[0]
+			s.queue = s.queue[1:]
+			s.mu.Unlock()
+			if it.fail {
+				return s.att.err(ctx)
+			}
+			proto.Reset(m)
+			proto.Merge(m, it.msg)
+			return nil
+		}
+		done := s.sendClosed || s.closed
+		s.mu.Unlock()
+		if done {
+			return io.EOF
+		}
+		select {
+		case <-s.notify:
+		case <-ctx.Done():
+			return ctx.Err()
+		}
+	}
+}
+
+func (c *contract) fileOfService(sym string) *file {
+	for i := range c.files {
+		fd := c.files[i].fd
+		if fd == nil {
+			continue
+		}
+		for _, sd := range fd.Service {
+			full := sd.GetName()
+			if fd.GetPackage() != "" {
+				full = fd.GetPackage() + "." + full
+			}
+			if full == sym {
+				return &c.files[i]
+			}
+		}
+	}
+	return nil
+}
+
+func (c *contract) fileByName(name string) *file {
+	for i := range c.files {
+		if c.files[i].name == name {
+			return &c.files[i]
+		}
+	}
+	return nil
+}
+
+// ---------------------------------------------------------------------------------------------
+// canonical rendering of a delivered description
+
+func short(s string) string {
+	h := sha256.Sum256([]byte(s))
+	return hex.EncodeToString(h[:4])
+}
+
+func targetSig(t *bridgedesc.Target) string {
+	var sb strings.Builder
+	for _, svc := range t.Services {
+		sb.WriteString(string(svc.Name))
+		sb.WriteString("{")
+		for _, m := range svc.Methods {
+			fmt.Fprintf(&sb, "%s(%s)->(%s)%v,%v;", m.RPCName,
+				m.Input.New().ProtoReflect().Descriptor().FullName(),
+				m.Output.New().ProtoReflect().Descriptor().FullName(), m.ClientStreaming, m.ServerStreaming)
+		}
+		sb.WriteString("}")
+	}
+	return short(sb.String())
+}
+
+// expectedSig renders what the resolver should deliver for (filtered, sorted) services over files.
+func expectedSig(services []string, files []*descriptorpb.FileDescriptorProto, onlyServices bool) string {
+	var sb strings.Builder
+	for _, name := range services {
+		sb.WriteString(name)
+		sb.WriteString("{")
+		if !onlyServices {
+			for _, fd := range files {
+				for _, sd := range fd.Service {
+					full := sd.GetName()
+					if fd.GetPackage() != "" {
+						full = fd.GetPackage() + "." + full
+					}
+					if full != name {
+						continue
+					}
+					for _, m := range sd.Method {
+						fmt.Fprintf(&sb, "/%s/%s(%s)->(%s)%v,%v;", full, m.GetName(),
+							strings.TrimPrefix(m.GetInputType(), "."), strings.TrimPrefix(m.GetOutputType(), "."),
+							m.GetClientStreaming(), m.GetServerStreaming())
+					}
+				}
+			}
+		}
+		sb.WriteString("}")
+	}
+	return short(sb.String())
+}
+
+func filteredSorted(listed []string) []string {
+	seen := map[string]bool{}
+	var out []string
+	for _, s := range listed {
+		if seen[s] {
+			continue
+		}
+		seen[s] = true
+		if strings.HasPrefix(s, "grpc.") {
+			continue
+		}
+		out = append(out, s)
+	}
+	sort.Strings(out)
+	return out
+}
+
+var _ = rand.Int
